@@ -424,11 +424,68 @@ impl Part for DisconnectUnderContention {
     }
 }
 
+/// The same clause through the public API: `Network::disconnect` while other threads of the
+/// application keep calling `Network::peers()` on the same network.
+#[derive(Clone, Debug, Serialize, Deserialize, PartialEq, Eq, Hash)]
+pub struct ReadersCase {
+    pub readers: u8,
+    pub rounds: u8,
+}
+
+pub struct DisconnectUnderReaders;
+impl Part for DisconnectUnderReaders {
+    type Case = ReadersCase;
+    fn name(&self) -> &'static str { "disconnect-under-readers" }
+    fn deterministic(&self) -> bool { false }
+    fn rule(&self) -> &'static str {
+        "two networks on the fabric; 1-6 OS threads of the application call Network::peers() of A in a tight loop while A connects to B and disconnects it again, 5-60 times; oracle: the moment disconnect() has returned, A.peers() does not contain B any more and A's next event for B is LostPeer (Requested); real threads, sampled interleavings; non-trivial = every case; distinct by case"
+    }
+    fn strategy(&self, _t: Tier) -> BoxedStrategy<ReadersCase> {
+        (1u8..7, 5u8..60).prop_map(|(readers, rounds)| ReadersCase { readers, rounds }).boxed()
+    }
+    fn run(&self, c: &ReadersCase, obs: &mut Obs) -> Result<(), Fail> {
+        let c = c.clone();
+        run_sim(95, 1, |sim| async move {
+            let a = sim.node(0)?;
+            let b = sim.node(1)?;
+            let stop = Arc::new(std::sync::atomic::AtomicBool::new(false));
+            let threads: Vec<_> = (0..c.readers).map(|_| { let (net, stop) = (a.net.clone(), stop.clone()); std::thread::spawn(move || { let mut n = 0u64; while !stop.load(std::sync::atomic::Ordering::Relaxed) { n += net.peers().len() as u64; } n }) }).collect();
+            let result = async {
+                for round in 0..c.rounds {
+                    match within(20_000, a.net.connect(b.addr())).await {
+                        Ok(Ok(_)) => {}
+                        _ => return Err(Fail::Inconclusive("connect failed".into())),
+                    }
+                    let (mut rx, _) = a.net.subscribe().map_err(|e| Fail::Inconclusive(e.to_string()))?;
+                    a.net.disconnect(b.id()).map_err(|e| Fail::violation("c09:disconnect-failed", e.to_string()))?;
+                    let still = a.net.peers().contains(&b.id());
+                    vensure!(!still, "c09:disconnect-not-immediate", "round {round}: disconnect() returned Ok while {} other thread(s) were calling peers(); the peer is still listed", c.readers);
+                    match rx.try_recv() {
+                        Ok(anemo::types::PeerEvent::LostPeer(p, anemo::types::DisconnectReason::Requested)) if p == b.id() => {}
+                        other => vfail!("c09:disconnect-not-immediate", "round {round}: after disconnect() returned the next event is {:?}, not LostPeer(Requested)", other),
+                    }
+                    // let B notice before the next round
+                    for _ in 0..200 { if !b.net.peers().contains(&a.id()) { break; } sleep_ms(5).await; }
+                }
+                Ok(())
+            }.await;
+            stop.store(true, std::sync::atomic::Ordering::Relaxed);
+            for t in threads { let _ = t.join(); }
+            result?;
+            sim.health()?;
+            obs.evals(c.rounds as u64);
+            obs.nontrivial(&c);
+            Ok(())
+        })
+    }
+}
+
 pub fn run(tier: Tier) -> i32 {
     let mut ctx = Ctx::new("C09", tier);
     ctx.assume("'eventually' is checked as the bounded virtual-time deadlines the statement names (idle timeout) plus 500 ms slack for RTT/PTO skew and one sampling step");
     ctx.assume("a crashed node is one whose datagrams vanish in both directions and which never closes anything");
     ctx.run_part(Histories, tier.pick(8_000, 500_000));
     ctx.run_part_threads(DisconnectUnderContention, tier.pick(16, 400), 4);
+    ctx.run_part_threads(DisconnectUnderReaders, tier.pick(24, 600), 3);
     ctx.finish()
 }
